@@ -28,6 +28,7 @@ import (
 	"strconv"
 	"strings"
 	"sync"
+	"syscall"
 	"time"
 
 	"go.etcd.io/bbolt"
@@ -123,6 +124,7 @@ type world struct {
 	errs    int                  // error replies in total
 	signal  chan struct{}
 	subLike map[int]string // ids used by sub / qsub
+	stuck   bool           // a reply that had to come did not come in time
 	iface   *database.Interface
 	secret  *database.Interface
 	crown   *database.Interface
@@ -483,8 +485,32 @@ func quiet() bool {
 	return true
 }
 
+// await is waitFor for a reply that has to come: when it does not, the API is wedged (or lost a reply); the rest
+// of the script is cut short and the recorded trace lacks the reply, which is what the trace specification judges.
+func (w *world) await(pred func() bool, d time.Duration) bool {
+	if w.stuck {
+		d = 20 * time.Millisecond
+	}
+	ok := w.waitFor(pred, d)
+	if !ok {
+		w.stuck = true
+	}
+	return ok
+}
+
 // settle waits until the process is quiet (at most d).
 func (w *world) settle(d time.Duration) bool {
+	if w.stuck {
+		return false
+	}
+	ok := w.settle1(d)
+	if !ok {
+		w.stuck = true
+	}
+	return ok
+}
+
+func (w *world) settle1(d time.Duration) bool {
 	end := time.Now().Add(d)
 	for {
 		if quiet() {
@@ -695,6 +721,9 @@ func (w *world) run(s *script) {
 	}
 	var pending []pend
 	for _, st := range s.Steps {
+		if w.stuck && seq {
+			break // the one-at-a-time client would still be waiting
+		}
 		if st.Cmd == "iw" {
 			sub := subs[w.rnd.Intn(len(subs))]
 			if st.Pf == "hid" {
@@ -737,22 +766,29 @@ func (w *world) run(s *script) {
 		case "sub":
 			// a subscription has no acknowledgement: it is registered when its handler is parked on the feed
 		case "mal":
-			w.waitFor(func() bool { return w.errors() > errBase }, time.Second)
+			w.await(func() bool { return w.errors() > errBase }, waitReply)
 		case "cancel":
-			d := time.Second
 			if _, ok := w.subLike[id]; ok {
-				d = waitReply
+				w.await(func() bool { return w.count(id, types...) > base }, waitReply)
+			} else { // a cancel of something that is not a subscription may stay unanswered
+				w.waitFor(func() bool { return w.count(id, types...) > base }, time.Second)
 			}
-			w.waitFor(func() bool { return w.count(id, types...) > base }, d)
 		default:
-			w.waitFor(func() bool { return w.count(id, types...) > base }, waitReply)
+			w.await(func() bool { return w.count(id, types...) > base }, waitReply)
 		}
 		w.settle(waitReply)
 	}
-	iw.Wait()
+	iwDone := make(chan struct{})
+	go func() { iw.Wait(); close(iwDone) }()
+	select {
+	case <-iwDone:
+	case <-time.After(waitReply):
+		w.stuck = true
+		w.log.emit(map[string]any{"e": "note", "msg": "internal writers still blocked after 3 s"})
+	}
 	for _, p := range pending {
 		p := p
-		w.waitFor(func() bool { return w.count(p.id, p.types...) > p.base }, waitReply)
+		w.await(func() bool { return w.count(p.id, p.types...) > p.base }, waitReply)
 	}
 	w.settle(waitReply)
 	// epilogue: cancel the subscriptions that are still running; `done` flushes their feeds
@@ -776,10 +812,10 @@ func (w *world) run(s *script) {
 			msg := w.message(st)
 			w.log.emit(w.reqEvent(st, msg))
 			a.Handle(msg)
-			w.waitFor(func() bool { return w.count(id, "done", "error") > base }, waitReply)
+			w.await(func() bool { return w.count(id, "done", "error") > base }, waitReply)
 		}
 		w.settle(waitReply)
-		if open == 0 {
+		if open == 0 || w.stuck {
 			break
 		}
 	}
@@ -792,7 +828,24 @@ func (w *world) run(s *script) {
 	a.Handle(msg)
 	answered := w.waitFor(func() bool { return w.count(probeID, "ok", "error") > 0 }, waitProbe)
 	w.settle(waitReply)
-	w.log.emit(map[string]any{"e": "end", "probe_answered": answered})
+	end := map[string]any{"e": "end", "probe_answered": answered, "stuck": w.stuck}
+	if w.stuck {
+		// where the goroutines of the API are parked (evidence for the report; not judged)
+		buf := make([]byte, 1<<20)
+		n := runtime.Stack(buf, true)
+		var keep []string
+		for _, g := range strings.Split(string(buf[:n]), "\n\n") {
+			if strings.Contains(g, "portbase/") && !strings.Contains(g, "main.(*world).run(") {
+				lines := strings.Split(g, "\n")
+				if len(lines) > 9 {
+					lines = lines[:9]
+				}
+				keep = append(keep, strings.Join(lines, "\n"))
+			}
+		}
+		end["stacks"] = string(trunc([]byte(strings.Join(keep, "\n\n")), 6000))
+	}
+	w.log.emit(end)
 }
 
 func childMain(scriptPath, tracePath string) {
@@ -858,9 +911,11 @@ func runScript(tr *vio.Trace, line []byte, n int, dir string) error {
 	if err != nil {
 		return err
 	}
-	ctx, cancel := context.WithTimeout(context.Background(), 120*time.Second)
+	ctx, cancel := context.WithTimeout(context.Background(), 90*time.Second)
 	defer cancel()
 	cmd := exec.CommandContext(ctx, self, "child", sp, tp)
+	cmd.Cancel = func() error { return cmd.Process.Signal(syscall.SIGQUIT) } // goroutine dump on stderr
+	cmd.WaitDelay = 5 * time.Second
 	var stderr bytes.Buffer
 	cmd.Stderr = &stderr
 	runErr := cmd.Run()
